@@ -3,14 +3,22 @@ import Verif.C09.Model
 /-
 Line driver for C09.
 
-  m <hex pattern text> <tree tokens…>
-      → P ok | STR <hex> | I <hexname:idx>,* | B <hexname>,* | W <0|1> | NT <discarded non-empty frames> | R <res> | ST <n> (<hexname> T)* | SP <ok|fail> | SS <n> (<hexname> T)*
-      → P err | P err64
+  m <hex pattern text> <PT | -> [<nB> <hex name>*] <tree tokens…>
+      PT = Pattern.Root as parsed by the REAL parser (harness serPat), nB/names = Pattern.Bindings;
+      `-` = the real parser rejected the text.
+      → P <ok|err|err64>                      the model parser on the text (parseText + Model.parse)
+        | PM <0|1>                             model-parsed Pat = real Pat up to Binding.idx
+        | NUM <0|1>                            … and with identical idx and Bindings
+        | RW <0|1>                             wfIdx Bindings Root on the REAL parser's output
+        | W <0|1>                              wf [] Root && wfIdx (hypotheses of no_panic)
+        | NT <discarded non-empty frames> | R <res> | ST <n> (<hexname> T)*     implMatch on the real Root
+        | SP <ok|fail> | SS <n> (<hexname> T)*                                  specMatch on the real Root
+      (only `P …` when PT is `-`)
   tables → tok <hex>:<int>,… | node <Kind>:<f.f.f>,…
 
 The pattern text is lexed and parsed here into surface syntax `Sx` (lexer.go and the token
-level of parser.go are transliterated but not part of the proved model); index assignment,
-matching and the specification are the definitions of Model.lean.
+level of parser.go are transliterated but not part of the proved model; tied by PM on every
+case); index assignment, matching and the specification are the definitions of Model.lean.
 -/
 namespace Verif.C09
 open Verif.Proto
@@ -157,50 +165,78 @@ partial def showFields : List String → List Tree → String
   | _, _ => ""
 end
 
-/-! ### Pattern.Root.String() and the index list -/
-
-def isProperList : Pat → Bool
-  | .list .gonil .gonil => true
-  | .list _ t => isProperList t
-  | _ => false
+/-! ### the real parser's Pattern.Root (harness serPat) -/
 
 mutual
-partial def showPat : Pat → String
-  | .gonil => "%!s(<nil>)"
-  | .any => "_"
-  | .nil => "nil"
-  | .str s => "\"" ++ s ++ "\""
-  | .binding n _ .gonil => n
-  | .binding n _ sub => n ++ "@" ++ showPat sub
-  | .or alts => "(Or" ++ String.join (alts.map fun a => " " ++ showPat a) ++ ")"
-  | .not sub => "(Not " ++ showPat sub ++ ")"
-  | .list .gonil .gonil => "[]"
-  | .list h t =>
-    if isProperList (.list h t) then "[" ++ " ".intercalate (properElems (.list h t)) ++ "]"
-    else showPat h ++ ":" ++ showPat t
-  | .node k _ fs => "(" ++ " ".intercalate (k :: fs.map showPat) ++ ")"
+partial def pPat : List String → Option (Pat × List String)
+  | "g" :: r => some (.gonil, r)
+  | "a" :: r => some (.any, r)
+  | "n" :: r => some (.nil, r)
+  | "s" :: h :: r => do let s ← hexDecode h; pure (.str s, r)
+  | "b" :: h :: i :: r => do
+    let n ← hexDecode h
+    let i ← i.toNat?
+    let (sub, r') ← pPat r
+    pure (.binding n i sub, r')
+  | "o" :: n :: r => do
+    let n ← n.toNat?
+    let (alts, r') ← pPats n r []
+    pure (.or alts, r')
+  | "x" :: r => do
+    let (sub, r') ← pPat r
+    pure (.not sub, r')
+  | "l" :: r => do
+    let (h, r1) ← pPat r
+    let (t, r2) ← pPat r1
+    pure (.list h t, r2)
+  | "k" :: kind :: n :: r => do
+    let n ← n.toNat?
+    let (fn, fs, r') ← pPatFields n r [] []
+    pure (.node kind fn fs, r')
+  | _ => none
 
-partial def properElems : Pat → List String
-  | .list .gonil _ => []
-  | .list h t => showPat h :: properElems t
-  | _ => []
+partial def pPats : Nat → List String → List Pat → Option (List Pat × List String)
+  | 0, r, acc => some (acc.reverse, r)
+  | n + 1, r, acc => do
+    let (p, r') ← pPat r
+    pPats n r' (p :: acc)
+
+partial def pPatFields : Nat → List String → List String → List Pat → Option (List String × List Pat × List String)
+  | 0, r, fn, fs => some (fn.reverse, fs.reverse, r)
+  | n + 1, f :: r, fn, fs => do
+    let (p, r') ← pPat r
+    pPatFields n r' (f :: fn) (p :: fs)
+  | _, _, _, _ => none
 end
 
+def pNames : Nat → List String → List String → Option (List String × List String)
+  | 0, r, acc => some (acc.reverse, r)
+  | n + 1, h :: r, acc => do
+    let s ← hexDecode h
+    pNames n r (s :: acc)
+  | _, _, _ => none
+
 mutual
-partial def idxList : Pat → List String
-  | .binding n i sub => (hexEncode n ++ ":" ++ toString i) :: idxList sub
-  | .or alts => idxLists alts
-  | .not sub => idxList sub
-  | .list h t => idxList h ++ idxList t
-  | .node _ _ fs => idxLists fs
-  | _ => []
-partial def idxLists : List Pat → List String
-  | [] => []
-  | p :: ps => idxList p ++ idxLists ps
+/-- equality of patterns; `withIdx = false` ignores Binding.idx -/
+partial def eqPat (withIdx : Bool) : Pat → Pat → Bool
+  | .gonil, .gonil => true
+  | .any, .any => true
+  | .nil, .nil => true
+  | .str a, .str b => a == b
+  | .binding n i s, .binding n' i' s' => n == n' && (!withIdx || i == i') && eqPat withIdx s s'
+  | .or as, .or bs => eqPats withIdx as bs
+  | .not a, .not b => eqPat withIdx a b
+  | .list h t, .list h' t' => eqPat withIdx h h' && eqPat withIdx t t'
+  | .node k fn fs, .node k' fn' fs' => k == k' && fn == fn' && eqPats withIdx fs fs'
+  | _, _ => false
+partial def eqPats (withIdx : Bool) : List Pat → List Pat → Bool
+  | [], [] => true
+  | a :: as, b :: bs => eqPat withIdx a b && eqPats withIdx as bs
+  | _, _ => false
 end
 
 def showEnv (names : List String) (e : Env) : String :=
-  let sorted := names.mergeSort (fun a b => decide (a ≤ b))
+  let sorted := (names.eraseDups).mergeSort (fun a b => decide (a ≤ b))
   let ents := sorted.filterMap fun n => (e n).map fun v => " " ++ hexEncode n ++ " " ++ showTree v
   toString ents.length ++ String.join ents
 
@@ -208,26 +244,60 @@ def showPanic : PanicKind → String
   | .created => "panic:created"
   | .other => "panic:other"
 
-def stepMatch (hexpat : String) (treeToks : List String) : String :=
-  match hexDecode hexpat, pTree treeToks with
-  | some ptxt, some (t, []) =>
-    match parseText ptxt with
-    | none => "P err"
-    | some sx =>
-      match parse sx with
-      | .error .tooMany => "P err64"
-      | .error _ => "P err"
-      | .ok (p, bs) =>
-        let r := match implMatch bs p t with
-          | .done true σ n => "NT " ++ toString n ++ " | R ok | ST " ++ showEnv bs σ
-          | .done false _ n => "NT " ++ toString n ++ " | R fail | ST 0"
-          | .panic k => "NT 0 | R " ++ showPanic k ++ " | ST 0"
-        let sp := match specMatch p t with
-          | some σ => "SP ok | SS " ++ showEnv bs σ
-          | none => "SP fail | SS 0"
-        let w := showBool (wf [] p && wfIdx bs p)
-        s!"P ok | STR {hexEncode (showPat p)} | I {",".intercalate (idxList p)} | B {",".intercalate (bs.map hexEncode)} | W {w} | {r} | {sp}"
-  | _, _ => "bad-op"
+/-- the model parser on the pattern text: status and, when a pattern comes out (also beyond 64
+names), the pattern and its binding table -/
+def modelParse (ptxt : String) : String × Option (Pat × List String) :=
+  match parseText ptxt with
+  | none => ("err", none)
+  | some sx =>
+    match parse sx with
+    | .ok (p, bs) => ("ok", some (p, bs))
+    | .error .tooMany =>
+      (match elabSx sx [] with
+       | .ok (p, bs) => ("err64", some (p, bs))
+       | .error _ => ("err64", none))
+    | .error _ => ("err", none)
+
+def stepMatch (hexpat : String) (rest : List String) : String :=
+  match hexDecode hexpat with
+  | none => "bad-op"
+  | some ptxt =>
+    let (pst, mp) := modelParse ptxt
+    match rest with
+    | "-" :: treeToks =>
+      (match pTree treeToks with
+       | some (_, []) => "P " ++ pst
+       | _ => "bad-op")
+    | _ =>
+      match pPat rest with
+      | none => "bad-op"
+      | some (rp, r1) =>
+        match r1 with
+        | nb :: r2 =>
+          match nb.toNat? with
+          | none => "bad-op"
+          | some nb =>
+            match pNames nb r2 [] with
+            | none => "bad-op"
+            | some (rbs, r3) =>
+              match pTree r3 with
+              | some (t, []) =>
+                let names := rbs ++ allNames rp
+                let r := match implMatch rbs rp t with
+                  | .done true σ n => "NT " ++ toString n ++ " | R ok | ST " ++ showEnv names σ
+                  | .done false _ n => "NT " ++ toString n ++ " | R fail | ST 0"
+                  | .panic k => "NT 0 | R " ++ showPanic k ++ " | ST 0"
+                let sp := match specMatch rp t with
+                  | some σ => "SP ok | SS " ++ showEnv names σ
+                  | none => "SP fail | SS 0"
+                let rw := wfIdx rbs rp
+                let w := wf [] rp && rw
+                let (pm, num) := match mp with
+                  | some (p, bs) => (eqPat false p rp, eqPat true p rp && bs == rbs)
+                  | none => (false, false)
+                s!"P {pst} | PM {showBool pm} | NUM {showBool num} | RW {showBool rw} | W {showBool w} | {r} | {sp}"
+              | _ => "bad-op"
+        | [] => "bad-op"
 
 def stepTables : String :=
   let toks := tokensByString.map fun (s, k) => hexEncode s ++ ":" ++ toString k
